@@ -191,11 +191,11 @@ def dict_poly(ctx):
 
     from xsdata.formats.dataclass.context import XmlContext
 
-    from ..poly_models import DOCS, ENV_DOCS, EnvHolder, PRoot
+    from ..poly_models import DOCS, ENV_DOCS, TWO_ITEMS_DOCS, EnvHolder, PRoot, TwoItems
     xctx = XmlContext()
     n = 0
     envelopes = (xctx.class_type.derived_keys, xctx.class_type.any_keys)
-    for data, root in [(d, PRoot) for d in DOCS] + [(d, EnvHolder) for d in ENV_DOCS]:
+    for data, root in [(d, PRoot) for d in DOCS] + [(d, EnvHolder) for d in ENV_DOCS] + [(d, TwoItems) for d in TWO_ITEMS_DOCS]:
         base = DictDecoder(context=xctx).decode(data, root)
         for up, ua, cw in itertools.product((False, True), repeat=3):
             dec = DictDecoder(context=xctx, config=ParserConfig(fail_on_unknown_properties=up, fail_on_unknown_attributes=ua, fail_on_converter_warnings=cw))
@@ -210,7 +210,7 @@ def dict_poly(ctx):
                     envelope = node.keys() in envelopes
                     if (envelope and not up) or (path and path[-1] == "attributes"):      # (the attribute MAP of a generic element takes any key)
                         continue
-                    node["zz_unknown"] = shape
+                    node["note" if root is TwoItems and "note" not in node else "zz_unknown"] = shape
                     n += 1
                     ctx.case(("dict-poly", json.dumps(data), str(path), up, ua, cw, str(shape)))
                     try:
